@@ -3,6 +3,7 @@
 -/
 import Kevo.Model.Engine
 import Kevo.Spec.Map
+import Kevo.Proofs.EngineLemmas
 namespace Kevo.Proofs.Engine
 open Kevo Kevo.Engine Kevo.Spec
 
@@ -42,38 +43,204 @@ def allSeqs (s : St) : List Nat :=
   s.wal.flatten.map (·.seq) ++ s.pool.active.entries.map (·.seq) ++ (s.pool.immutables.flatMap (·.entries)).map (·.seq) ++
   (s.ssts.flatMap (·.entries)).map (·.seq)
 
+
+/-! ### the invariant along a program (helper lemmas in Kevo.Proofs.EngineLemmas) -/
+
+/-- the history (all versions ever written, newest first) after one more operation -/
+def histStep (s : St) (hist : List MEntry) : Op → List MEntry
+  | .put k v => { key := k, seq := s.walNext, val := some v } :: hist
+  | .del k => { key := k, seq := s.walNext, val := none } :: hist
+  | .batch ops => (ops.map (mkE s.walNext)).reverse ++ hist
+  | _ => hist
+
+theorem init_inv (cfg : Cfg) : EInv (init cfg) [] :=
+  ⟨⟨fun _ => rfl, rfl⟩, rfl, by simp [init], List.Pairwise.nil, by simp, Or.inl rfl, rfl, by simp [init],
+    by simp [init]⟩
+
+theorem step_inv {s : St} {hist : List MEntry} (h : EInv s hist) (o : Op) :
+    EInv (engStep s o).1 (histStep s hist o) := by
+  cases o with
+  | put k v => exact put_inv h k v
+  | del k => exact delete_inv h k
+  | batch ops => exact batch_inv h ops
+  | get k => exact h
+  | flush => exact flushMemTables_inv h
+  | reopen => exact (reopen_inv h).1
+
+theorem step_abs (s : St) (hist : List MEntry) (o : Op) :
+    absOf (histStep s hist o) = (mapStep (absOf hist) o).1 := by
+  cases o with
+  | put k v => exact absOf_cons _ _
+  | del k => exact absOf_cons _ _
+  | batch ops => exact absOf_batch _ ops hist
+  | get k => rfl
+  | flush => rfl
+  | reopen => rfl
+
+theorem step_out {s : St} {hist : List MEntry} (h : EInv s hist) (o : Op) :
+    (engStep s o).2 = (mapStep (absOf hist) o).2 := by
+  cases o with
+  | get k => simp only [engStep, mapStep, get_eq h k]
+  | _ => rfl
+
+theorem outputs_refine : ∀ (ops : List Op) (s : St) (hist : List MEntry), EInv s hist →
+    engOutputs s ops = mapOutputs (absOf hist) ops := by
+  intro ops
+  induction ops with
+  | nil => intro s hist _; rfl
+  | cons o rest ih =>
+    intro s hist h
+    have h1 := ih _ _ (step_inv h o)
+    rw [step_abs] at h1
+    have h2 := step_out h o
+    unfold engOutputs mapOutputs
+    simp only [h2, h1]
+    rfl
+
+theorem engRun_cons (s : St) (o : Op) (ops : List Op) : engRun s (o :: ops) = engRun (engStep s o).1 ops := rfl
+
+theorem engRun_snoc (s : St) (o : Op) (ops : List Op) : engRun s (ops ++ [o]) = (engStep (engRun s ops) o).1 := by
+  simp [engRun, List.foldl_append]
+
+theorem run_inv : ∀ (ops : List Op) (s : St) (hist : List MEntry), EInv s hist →
+    ∃ hist', EInv (engRun s ops) hist' := by
+  intro ops
+  induction ops with
+  | nil => intro s hist h; exact ⟨hist, h⟩
+  | cons o rest ih =>
+    intro s hist h
+    exact ih _ _ (step_inv h o)
+
+theorem put_frame (s : St) (k v : Bytes) : (put s k v).lastSeq = s.walNext ∧ (put s k v).walNext = s.walNext + 1 := by
+  unfold put; exact maybeFlush_frame _
+
+theorem delete_frame (s : St) (k : Bytes) : (delete s k).lastSeq = s.walNext ∧ (delete s k).walNext = s.walNext + 1 := by
+  unfold delete; exact maybeFlush_frame _
+
+theorem batch_frame (s : St) (ops : List (Bool × Bytes × Bytes)) (hne : ops ≠ []) :
+    (batch s ops).lastSeq = s.walNext ∧ (batch s ops).walNext = s.walNext + 1 := by
+  rw [batch_eq s ops hne]; exact maybeFlush_frame _
+
+theorem batch_nil_frame (s : St) : (batch s []).lastSeq = s.lastSeq ∧ (batch s []).walNext = s.walNext :=
+  maybeFlush_frame s
+
+theorem step_frame {s : St} {hist : List MEntry} (h : EInv s hist) (o : Op) :
+    s.lastSeq ≤ (engStep s o).1.lastSeq ∧ s.walNext ≤ (engStep s o).1.walNext := by
+  have hn := h.next
+  cases o with
+  | put k v => have := put_frame s k v; simp only [engStep]; omega
+  | del k => have := delete_frame s k; simp only [engStep]; omega
+  | batch ops =>
+    by_cases hne : ops = []
+    · subst hne; have := batch_nil_frame s; simp only [engStep]; omega
+    · have := batch_frame s ops hne; simp only [engStep]; omega
+  | get k => simp [engStep]
+  | flush => have := flushMemTables_frame s; simp only [engStep]; omega
+  | reopen => have := (reopen_inv h).2; simp only [engStep]; omega
+
+theorem stamps_inv : ∀ (ops : List Op) (s : St) (hist : List MEntry), EInv s hist →
+    (stamps s ops).Pairwise (· < ·) ∧ ∀ n ∈ stamps s ops, s.lastSeq < n := by
+  intro ops
+  induction ops with
+  | nil => intro s hist _; simp [stamps]
+  | cons o rest ih =>
+    intro s hist h
+    obtain ⟨ih1, ih2⟩ := ih _ _ (step_inv h o)
+    have hf := step_frame h o
+    have hn := h.next
+    have hskip : (stamps (engStep s o).1 rest).Pairwise (· < ·) ∧ ∀ n ∈ stamps (engStep s o).1 rest, s.lastSeq < n :=
+      ⟨ih1, fun n hn' => by have := ih2 n hn'; omega⟩
+    have hkeep : s.lastSeq < (engStep s o).1.lastSeq →
+        ((engStep s o).1.lastSeq :: stamps (engStep s o).1 rest).Pairwise (· < ·) ∧
+        ∀ n ∈ (engStep s o).1.lastSeq :: stamps (engStep s o).1 rest, s.lastSeq < n := by
+      intro hlt
+      refine ⟨List.Pairwise.cons ih2 ih1, ?_⟩
+      intro n hn'
+      rcases List.mem_cons.mp hn' with rfl | hn'
+      · exact hlt
+      · have := ih2 n hn'; omega
+    cases o with
+    | put k v => exact hkeep (by have := put_frame s k v; simp only [engStep]; omega)
+    | del k => exact hkeep (by have := delete_frame s k; simp only [engStep]; omega)
+    | batch ops =>
+      by_cases hne : ops = []
+      · subst hne; exact hskip
+      · have he : ops.isEmpty = false := by cases ops <;> simp_all
+        simp only [stamps, he]
+        exact hkeep (by have := batch_frame s ops hne; simp only [engStep]; omega)
+    | get k => exact hskip
+    | flush => exact hskip
+    | reopen => exact hskip
+
+theorem log_order_aux {s : St} {hist : List MEntry} (h : EInv s hist) :
+    (s.wal.flatten.map (·.seq)).Pairwise (· ≤ ·) ∧ (∀ n ∈ allSeqs s, n < s.walNext) ∧ s.lastSeq < s.walNext := by
+  have hn := h.next
+  have hb : ∀ e ∈ hist, e.seq < s.walNext := fun e he => by have := h.bound e he; omega
+  refine ⟨?_, ?_, by omega⟩
+  · have : s.wal.flatten.map (·.seq) = (hist.map (·.seq)).reverse := by
+      rw [← List.map_reverse, ← h.log, List.map_map]; rfl
+    rw [this, List.pairwise_reverse]
+    exact h.sorted
+  · intro n hn'
+    simp only [allSeqs, List.mem_append, List.mem_map] at hn'
+    rcases hn' with ((⟨l, hl, rfl⟩ | ⟨e, he, rfl⟩) | ⟨e, he, rfl⟩) | ⟨e, he, rfl⟩
+    · have : toM l ∈ hist := by
+        rw [← List.mem_reverse, ← h.log]; exact List.mem_map_of_mem hl
+      exact hb _ this
+    · exact hb e (h.pool.mem (mem_poolList_active he))
+    · refine hb e (h.pool.mem ?_)
+      simp only [List.mem_flatMap] at he
+      obtain ⟨m, hm, he⟩ := he
+      simp only [poolList, List.flatMap_cons, List.mem_append, List.mem_flatMap, List.mem_reverse]
+      exact Or.inr ⟨m, hm, he⟩
+    · simp only [List.mem_flatMap] at he
+      obtain ⟨t, ht, he⟩ := he
+      exact hb e (h.sst t ht e he)
+
 /-- C01: every get of every program returns what the abstract map returns — the latest preceding write of the
     key, or nothing if it was never written or its latest write is a delete — for every memtable size (every way
     the data moves between the active table, immutable tables and SSTables), across flushes and reopenings. -/
 theorem get_refines (cfg : Cfg) (hcfg : 0 < cfg.memTableSize) (ops : List Op) :
     engOutputs (init cfg) ops = mapOutputs emptyMap ops := by
-  sorry
+  have _ := hcfg
+  have := outputs_refine ops (init cfg) [] (init_inv cfg)
+  rwa [absOf_nil] at this
 
 /-- C01 corollaries: maintenance never changes what any key reads as. -/
 theorem flush_preserves_view (cfg : Cfg) (hcfg : 0 < cfg.memTableSize) (ops : List Op) (k : Bytes) :
     get (flushMemTables (engRun (init cfg) ops)) k = get (engRun (init cfg) ops) k := by
-  sorry
+  have _ := hcfg
+  obtain ⟨hist, h⟩ := run_inv ops (init cfg) [] (init_inv cfg)
+  rw [get_eq h k, get_eq (flushMemTables_inv h) k]
 
 theorem reopen_preserves_view (cfg : Cfg) (hcfg : 0 < cfg.memTableSize) (ops : List Op) (k : Bytes) :
     get (reopen (engRun (init cfg) ops)) k = get (engRun (init cfg) ops) k := by
-  sorry
+  have _ := hcfg
+  obtain ⟨hist, h⟩ := run_inv ops (init cfg) [] (init_inv cfg)
+  rw [get_eq h k, get_eq (reopen_inv h).1 k]
 
 /-- C08: the numbers stamped on successive successful writes are strictly increasing over the whole life of the
     database (flushes, rotations, reopenings included). -/
 theorem seq_strictly_increasing (cfg : Cfg) (hcfg : 0 < cfg.memTableSize) (ops : List Op) :
     (stamps (init cfg) ops).Pairwise (· < ·) := by
-  sorry
+  have _ := hcfg
+  exact (stamps_inv ops (init cfg) [] (init_inv cfg)).1
 
 /-- C08: the log, read in file order, carries non-decreasing numbers, and every number stored in any layer is
     below the counter; the reported last sequence never decreases along a program. -/
 theorem log_order_is_seq_order (cfg : Cfg) (hcfg : 0 < cfg.memTableSize) (ops : List Op) :
     let s := engRun (init cfg) ops
     (s.wal.flatten.map (·.seq)).Pairwise (· ≤ ·) ∧ (∀ n ∈ allSeqs s, n < s.walNext) ∧ s.lastSeq < s.walNext := by
-  sorry
+  have _ := hcfg
+  obtain ⟨hist, h⟩ := run_inv ops (init cfg) [] (init_inv cfg)
+  exact log_order_aux h
 
 theorem last_seq_monotone (cfg : Cfg) (hcfg : 0 < cfg.memTableSize) (ops : List Op) (o : Op) :
     (engRun (init cfg) ops).lastSeq ≤ (engRun (init cfg) (ops ++ [o])).lastSeq ∧
     (engRun (init cfg) ops).walNext ≤ (engRun (init cfg) (ops ++ [o])).walNext := by
-  sorry
+  have _ := hcfg
+  obtain ⟨hist, h⟩ := run_inv ops (init cfg) [] (init_inv cfg)
+  rw [engRun_snoc]
+  exact step_frame h o
 
 end Kevo.Proofs.Engine
